@@ -101,6 +101,14 @@ def check_route(route, v, scratch):
     except Exception:  # noqa: BLE001
         return None, "refused"
     case["built"] = data.hex()
+    # what was built, written out through a text-mode file: refused, or exactly these bytes
+    from fickling.fickle import Pickled
+
+    from vlib.textdump import text_dump_problem
+
+    msg = text_dump_problem(Pickled.load(data), scratch, "-c15")
+    if msg:
+        return Failure(case, f"{route}({v!r}): {msg}"), "text-dump"
     try:
         r, log = _load_module_level(data)
     except Exception as e:  # noqa: BLE001
@@ -419,7 +427,22 @@ def shards(tier):
     out = [{"kind": "routes", "n": per, "idx": i} for i in range(12)]
     out += [{"kind": "new", "n": per * 4, "idx": i} for i in range(3)]
     out += [{"kind": "constructions"}]
+    out += [{"kind": "sizes", "part": i, "nparts": 4} for i in range(4)]
     return out
+
+
+def size_values():
+    """values sitting on the length boundaries of the encodings (one-byte / two-byte / four-byte
+    lengths, the pickler's batches of 1000)"""
+    for n in (0, 1, 255, 256, 257, 999, 1000, 1001, 1999, 2000, 2001, 3000, 65535, 65536):
+        yield list(range(n))
+        yield {i: i for i in range(n)}
+        yield "x" * n
+        yield b"y" * n
+        if n in (1000, 2000):
+            yield [list(range(n)), "tail"]
+            yield {"k": list(range(n))}
+            yield [{i: str(i) for i in range(n)}]
 
 
 def run_shard(spec, seed):
@@ -446,6 +469,15 @@ def run_shard(spec, seed):
                 return f
 
             hypothesis_search(strat, body, seed, spec["n"], res, batch=500)
+        elif spec["kind"] == "sizes":
+            cases = [(r, v) for v in size_values() for r in ROUTES if r != "cli_create" or type(v) in (str, bytes)]
+            for route, v in cases[spec["part"] :: spec["nparts"]]:
+                f, klass = check_route(route, v, scratch)
+                res.note(None, True, klass=[klass, "sizes", "route:" + route],
+                         sample={"route": route, "value": f"{type(v).__name__} of length {len(v)}"})
+                if f is not None:
+                    res.failures.append(f)
+                    break
         elif spec["kind"] == "new":
 
             def body(v):
